@@ -18,6 +18,7 @@ import (
 	"github.com/dominant-strategies/go-quai/core/types"
 	"github.com/dominant-strategies/go-quai/crypto"
 	"github.com/dominant-strategies/go-quai/ethdb"
+	"github.com/dominant-strategies/go-quai/params"
 	"github.com/dominant-strategies/go-quai/trie"
 	"google.golang.org/protobuf/proto"
 	"verifharness/hlib"
@@ -419,6 +420,17 @@ func (c *chain) step(rc *runCtx, i int) (stop bool) {
 	rc.rep.Count(fmt.Sprintf("block/quai-txs=%s", bucket(nq)))
 	rc.rep.Count(fmt.Sprintf("block/inbound-etxs=%s", bucket(ne)))
 	rc.rep.Count(fmt.Sprintf("block/qi-txs=%s", bucket(nqi)))
+	if b.GasLimit() != head.GasLimit() && head.NumberU64(common.ZONE_CTX) > 0 {
+		// the quota of the inbound-ETX section depends on the gas limit of this block, not of its parent
+		etxGas := uint64(0)
+		if ne > 0 {
+			etxGas = b.GasUsed()
+		}
+		rc.rep.Count(fmt.Sprintf("block/gas-limit-differs-from-parent/inbound-etxs=%s/quota-reached=%v", bucket(ne), nq+nqi == 0 && etxGas >= b.GasLimit()/params.MinimumEtxGasDivisor))
+		if ne > 0 {
+			rc.rep.Nontrivial(fmt.Sprintf("gl/%d/%d/%d", head.GasLimit()/1000000, b.GasLimit()/1000000, ne))
+		}
+	}
 	rc.rep.Count(fmt.Sprintf("block/outbound-etxs=%s", bucket(len(b.OutboundEtxs()))))
 	if nq+ne+nqi > 0 {
 		rc.rep.Nontrivial(fmt.Sprintf("c%d/q%d/e%d/i%d/o%d/g%d", c.cfg.Idx%4, nq, ne, nqi, len(b.OutboundEtxs()), b.GasUsed()/21000))
@@ -689,6 +701,66 @@ func (c *chain) mutantBatch(rc *runCtx, i int, b, parent *types.WorkObject, sib 
 			mutHashes = append(mutHashes, m.wo.Hash())
 		}
 		evs = append(evs, e)
+	}
+	// pass 1b (round 3): the verdict of ValidateBody must be a function of the block handed in, not of what this
+	// validator has seen before. The honest block (same header hash as every stale-root / stale-seal mutant)
+	// goes through the real ValidateBody - and on every other sampled block through the real Process as well -
+	// on this sibling, as an append attempt that is postponed does; then every mutant is body-checked AGAIN.
+	// A verdict (class) that differs from the cold one is a violation. Pass 2 below then runs on the warmed
+	// sibling (the honest block has been body-checked / processed, not appended).
+	if len(evs) > 0 {
+		wcj := caseJSON{ID: caseID(c.cfg.Idx, i, 9998), Seed: rc.seed, Chain: c.cfg.Idx, Blocks: rc.blocks, Block: i, Mutant: "honest-before-mutants"}
+		warmOk := true
+		func() {
+			defer func() {
+				if p := recover(); p != nil {
+					warmOk = false
+				}
+			}()
+			if err := sib.z.ValidateBody(b); err != nil {
+				warmOk = false
+				rc.rep.Fail("honest-before-mutants/rejected", "the honest block fails ValidateBody on a sibling over the same pre-state (after the mutants were body-checked): "+err.Error(), wcj)
+				return
+			}
+			if i%2 == 0 {
+				if _, _, _, perr := observeExec(sib, b); perr != nil {
+					rc.rep.Fail("honest-before-mutants/rejected", "the honest block fails Process on a sibling over the same pre-state: "+perr.Error(), wcj)
+				}
+				rc.rep.Count("warm/ValidateBody+Process")
+			} else {
+				rc.rep.Count("warm/ValidateBody")
+			}
+		}()
+		if warmOk {
+			for _, e := range evs {
+				warmRej, warmVerdict := false, vOk
+				func() {
+					defer func() {
+						if p := recover(); p != nil {
+							warmRej, warmVerdict = true, vUncles
+						}
+					}()
+					if err := sib.z.ValidateBody(e.m.wo); err != nil {
+						warmRej, warmVerdict = true, classBody(err)
+					}
+				}()
+				rc.rep.Evaluations++
+				coldVerdict := vOk
+				if e.bodyRej {
+					coldVerdict = e.verdict
+				}
+				if warmRej != e.bodyRej || warmVerdict != coldVerdict {
+					rc.rep.Fail("validation-depends-on-history/ValidateBody/"+e.m.sigName(),
+						fmt.Sprintf("ValidateBody gave %s for the mutated block %s on a fresh validator and %s after the same validator had checked the honest block with the same header: the verdict is not a function of the block", verdictNames[coldVerdict], e.m.Name, verdictNames[warmVerdict]), e.cj)
+					rc.rep.Count("warm/verdict-changed")
+				} else if e.bodyRej {
+					rc.rep.Count("warm/still-rejected")
+					if e.m.wo.Hash() == b.Hash() {
+						rc.rep.Nontrivial("w/" + e.m.sigName() + "/" + verdictNames[warmVerdict])
+					}
+				}
+			}
+		}
 	}
 	base := takeSnap(sib.db)
 	// pass 2: the real SetCurrentHeader
